@@ -61,8 +61,9 @@ def o_seq(case):
     j = 0
     matched = [False] * len(emitted)
     for n, (raw, parsed) in enumerate(got):
-        if not isinstance(raw, bytes):
+        if not isinstance(raw, (bytes, bytearray)):
             raise Fail("raw-not-bytes", f"result {n}: raw is {type(raw).__name__}")
+        raw = bytes(raw)
         while j < len(emitted) and emitted[j][0] != raw:
             j += 1
         if j == len(emitted):
